@@ -98,7 +98,8 @@ theorem msg_roundtrip (fl : CodecFlags) (m : Msg) (h : msgWf m) : Msg.decode fl 
     rw [take_append_len _ _ 32 h, drop_append_len _ _ 32 h, u64_toBE]
   | ping => simp [Msg.encode, Msg.tag, Msg.body, Msg.decode]
   | spv => simp [Msg.encode, Msg.tag, Msg.body, Msg.decode]
-  | ghost g => simp [Msg.encode, Msg.tag, Msg.body, Msg.decode, Ghost.decode_encode fl g h, Res.map, Res.bind]
+  | ghost g =>
+    simp [Msg.encode, Msg.tag, Msg.body, Msg.decode, Ghost.decode_encode fl g h, Ghost.short_encode g h, Res.map, Res.bind]
   | ghostReq id a f =>
     obtain ⟨h1, h2⟩ := h
     simp only [Msg.encode, Msg.tag, Msg.body, Msg.decode]
